@@ -143,6 +143,10 @@ mut("C13-revert-macro-undo", "macex.c",
     "		if (macexUndoState)\n", "		if (false)\n")
 
 
+mut("C18-revert-cpp-stub-close-check", "gencpp.c",
+    "  if (failed) comsgFatal(NULL, ALDOR_F_CantWrite, strPrintf(\"%s/%s_cc.h\",dir,file));", "")
+
+
 def main():
     out = os.path.join(os.path.dirname(os.path.abspath(__file__)), "mutants")
     os.makedirs(out, exist_ok=True)
